@@ -245,3 +245,18 @@ def run_repair_abort(ctx, monitors=MON_REPAIR_ABORT):
     ctx.assumptions.append("an interrupted chain repair = context cancelled at sync.beforePut or right after any store operation "
                            "of the correction, or one store write failing; bolt (trimmed, untrimmed) and memdb back-ends")
     return ok
+
+
+def run_repair(ctx, monitors):
+    """Light entry point (used by C01): the directed chain-repair scenarios only (honest peers, lying peers - bad
+    signatures, foreign beacon ids, early closes -, interrupted corrections) on the real SyncManager; `monitors` decides
+    what is judged (C01: OnlyVerifiedInOrder - whatever a repair writes verifies for its round)."""
+    out = "repair.ndjson"
+    trace = run_harness(ctx, "./internal/chain/beacon", "TestVerifSyncClient", out,
+                        env={"VERIF_ONLY": "repair", "GODEBUG": "randseednop=0"}, timeout=600)
+    ok, alarms, r = ctx.validate_trace("Trace_SyncClient", "Trace_SyncClient.cfg", trace, name="trace-repair", timeout=600)
+    if ok:
+        ctx.traces += count_lines(trace, "Reset")
+    ctx.sample({"stage": "syncclient/repair", "scenarios": count_lines(trace, "Reset"), "trace_head": sample_lines(trace, 2, 300)})
+    _judge(ctx, "TestVerifSyncClient[repair]", out, alarms, monitors)
+    return ok
